@@ -17,13 +17,20 @@ attribute read is EAttr.  What is NOT dumped, and how it enters the bridge theor
 Aliasing (translate/minipy.alias_check): `parsed_arg_values = vars(parsed_args)` is the live view of the namespace - the two
 names are ONE variable (pop on the view = SPopAttr on the object); `constructor_arguments = initial_constructor_arguments.copy()`
 is a shallow copy whose inner dicts are mutated - admitted only because initial_constructor_arguments is not used afterwards;
-`constructor_arguments` and the namespace are the in/out arguments of the procedure call field(...)."""
+`constructor_arguments` and the namespace are the in/out arguments of the procedure call field(...).
+
+Second pair: ArgumentParser._instantiate_dataclasses with _create_dataclass_instance as the procedure it calls (instantiate_src,
+create_src).  Not dumped: dc_wrapper.dataclass_fn / the constructor call `constructor(**constructor_args)` is an uninterpreted
+function of the keyword dict given by a table (it may raise); wrapper.optional / .default / .defaults / .fields / .destinations /
+.nesting_level / .parent / .dest, field_wrapper.name / .default and self._defaults are attributes of the objects in the
+environment; DC_TYPE_KEY is the string constant read from helpers/serialization/serializable.py; the identity-distinctness assert
+(DISTINCT_ASSERT) is a declared no-op."""
 from __future__ import annotations
 
 import ast
 
 from .minipy import Ctx, method_block
-from .pyast import Unrecognised, cstr, find_def, parse, unparse
+from .pyast import Unrecognised, const, cstr, find_def, module_assign, parse, unparse
 
 CONSTS = {"argparse.SUPPRESS": "argparse.SUPPRESS", "dataclasses.MISSING": "dataclasses.MISSING"}
 SPLIT_DEST = ("def split_dest(destination: str) -> tuple[str, str]:\n"
@@ -31,6 +38,11 @@ SPLIT_DEST = ("def split_dest(destination: str) -> tuple[str, str]:\n"
               "    return (parent, attribute_in_parent)")
 FILL_PARAMS = ["self", "parsed_args", "wrappers", "initial_constructor_arguments"]
 CALL_PARAMS = ["self", "parser", "namespace", "values", "constructor_arguments", "option_string"]
+INST_PARAMS = ["self", "parsed_args", "wrappers", "constructor_arguments"]
+CREATE_PARAMS = ["wrapper", "constructor", "constructor_args"]
+# `assert len(sorted_dc_wrappers) == len(set(sorted_dc_wrappers))`: the wrapper OBJECTS are pairwise distinct (identity); the model's
+# wrappers are values, the statement is a declared no-op of the dump
+DISTINCT_ASSERT = "assert len(sorted_dc_wrappers) == len(set(sorted_dc_wrappers))"
 
 
 def emit(repo: str) -> str:
@@ -65,10 +77,33 @@ def emit(repo: str) -> str:
     callee2 = Ctx(objects=True, consts=CONSTS, attr_targets=["self._results"],
                   tables=["self.duplicate_if_needed", "self.postprocess"], prims={"utils.split_dest": "ESplitDest"})
     cblk, cassigned = method_block(call, callee2)
+    # ---- _instantiate_dataclasses with _create_dataclass_instance as the procedure it calls
+    ser = parse(repo, "simple_parsing/helpers/serialization/serializable.py")
+    dc_type_key = const(module_assign(ser, "DC_TYPE_KEY"), str)
+    if not any(isinstance(n, ast.ImportFrom) and any(a.name == "DC_TYPE_KEY" and a.asname is None for a in n.names) for n in parsing.body):
+        raise Unrecognised("parsing.py no longer imports DC_TYPE_KEY from the serialization helpers")
+    inst = find_def(parsing, "_instantiate_dataclasses", cls="ArgumentParser")
+    create = find_def(parsing, "_create_dataclass_instance")
+    for fn, want in ((inst, INST_PARAMS), (create, CREATE_PARAMS)):
+        a = fn.args
+        if [x.arg for x in a.posonlyargs + a.args] != want or a.vararg or a.kwarg or a.kwonlyargs or a.defaults:
+            raise Unrecognised(f"{fn.name}: expected the parameters {want}")
+    ccreate = Ctx(objects=True, consts=CONSTS, tables=["constructor"])
+    cinst = Ctx(objects=True, consts=CONSTS, enum_prefixes=("ConflictResolution.",), prims={"utils.split_dest": "ESplitDest"},
+                str_consts={"DC_TYPE_KEY": dc_type_key}, skip_stmts=[DISTINCT_ASSERT],
+                procs={"_create_dataclass_instance": (create, ccreate, None)})
+    iblk, iassigned = method_block(inst, cinst)
+    ccreate2 = Ctx(objects=True, consts=CONSTS, tables=["constructor"])
+    crblk, crassigned = method_block(create, ccreate2)
+    inst_text = ("(* _create_dataclass_instance *)\n"
+                 f"Definition create_src : block :=\n  {crblk}.\n"
+                 "(* ArgumentParser._instantiate_dataclasses; value = _create_dataclass_instance(..) is SCallRet .. create_src .. *)\n"
+                 f"Definition instantiate_src : block :=\n  {iblk}.\n"
+                 f"Definition instantiate_locals : list string := [{'; '.join(cstr(x) for x in iassigned)}].\n")
     return ("From SPV Require Import Base.Str Model.MiniPy.\nOpen Scope string_scope.\n"
             "(* FieldWrapper.__call__ *)\n"
             f"Definition field_call_src : block :=\n  {cblk}.\n"
             f"Definition field_call_locals : list string := [{'; '.join(cstr(x) for x in cassigned)}].\n"
             "(* ArgumentParser._fill_constructor_arguments_with_fields; the call field(...) is SCall field_call_src .. *)\n"
             f"Definition fill_src : block :=\n  {blk}.\n"
-            f"Definition fill_locals : list string := [{'; '.join(cstr(x) for x in assigned)}].\n")
+            f"Definition fill_locals : list string := [{'; '.join(cstr(x) for x in assigned)}].\n" + inst_text)
